@@ -146,6 +146,9 @@ func genC15(g *Gen, tier string) *Program {
 	if g.Bool(15) {
 		c.Faults.CloseDest = g.Range(1, 4)
 	}
+	if c.M3.Dests > 1 && len(c.Faults.SendFail) > 0 && g.Bool(60) {
+		c.Faults.FailDest = g.Range(1, c.M3.Dests) // one destination is flaky, the others are healthy
+	}
 	var ops []Op
 	sizes := []int{0, 1, 5, 100, 1000, 30000, 32500, 40000, 64999, 65000, 65001, 70000}
 	nMsg := g.Range(2, 6)
@@ -212,7 +215,6 @@ func checkC15(env *Env) []Violation {
 	sendFaultSeen := false
 	refusedInMsg := false    // a write of the current message was refused
 	abandonedPrefix := false // bytes of an abandoned message are still in the model buffer
-	multiBroken := false
 	stale := 0
 	for _, r := range ops {
 		res, _ := r.Extra.(*tResult)
@@ -277,20 +279,34 @@ func checkC15(env *Env) []Violation {
 			if anyFault {
 				env.Probes.inc("messages_after_fault")
 			}
-			// every destination must receive exactly one datagram with the model buffer
+			// Every destination must receive exactly one datagram with the model
+			// buffer. A destination whose own send fails loses this message. For the
+			// multi transport the statement promises the full fan-out only "when no
+			// destination fails", so in a Flush in which some destination's send fails
+			// another destination may be left without a datagram (it has lost the
+			// message too) - but whatever it is sent, now or by a later Flush, is
+			// exactly the message of that Flush: "after any failed ... message the
+			// next message is transmitted complete, alone and uncorrupted".
 			failed := false
-			if multiBroken {
-				buf = nil
-				continue
+			idxOf := make([]int, nd)
+			for c := 0; c < nd; c++ {
+				idxOf[c] = -1
+				if pos[c] < len(perConn[c]) {
+					idx := perConn[c][pos[c]]
+					if env.Net.Log[idx].Seq <= r.Ret && env.Net.Log[idx].Seq >= r.Inv {
+						idxOf[c] = idx
+						if env.Net.Log[idx].Err != "" {
+							failed = true
+						}
+					}
+				}
 			}
 			for c := 0; c < nd; c++ {
-				idx := -1
-				if pos[c] < len(perConn[c]) {
-					idx = perConn[c][pos[c]]
-				}
-				if idx < 0 || env.Net.Log[idx].Seq > r.Ret || env.Net.Log[idx].Seq < r.Inv {
+				idx := idxOf[c]
+				if idx < 0 {
 					if nd > 1 && failed {
-						continue // fan-out stops at the first failing destination
+						env.Probes.inc("multi_dest_skipped_in_failed_flush")
+						continue
 					}
 					out = append(out, vf("flush-no-datagram", "Flush (message of %d bytes) produced no datagram for destination %d", len(buf), c))
 					continue
@@ -298,13 +314,6 @@ func checkC15(env *Env) []Violation {
 				pos[c]++
 				d := env.Net.Log[idx]
 				if d.Err != "" {
-					failed = true
-					if nd > 1 {
-						// "when no destination fails the multi-destination transport performs
-						// every write and flush on every destination": nothing is claimed
-						// for a multi transport one of whose destinations failed
-						multiBroken = true
-					}
 					sendFaultSeen = true
 					anyFault = true
 					env.Probes.inc("faults_in_sequence")
@@ -318,6 +327,8 @@ func checkC15(env *Env) []Violation {
 					if abandonedPrefix && len(d.Data) > len(buf) && bytes.HasSuffix(d.Data, buf) {
 						class = "abandoned-prefix"
 						msg = fmt.Sprintf("after a message that was abandoned following a refused write, the next datagram (destination %d) carries %d stale bytes of the abandoned message in front of the %d byte message", c, len(d.Data)-len(buf), len(buf))
+					} else if nd > 1 && len(d.Data) > len(buf) && bytes.HasSuffix(d.Data, buf) {
+						msg += fmt.Sprintf(" (it carries %d bytes of earlier messages in front: a Flush during which another destination failed left them buffered)", len(d.Data)-len(buf))
 					}
 					out = append(out, vf(class, "%s", msg))
 					if class == "abandoned-prefix" {
@@ -343,7 +354,7 @@ func checkC15(env *Env) []Violation {
 		}
 	}
 	// no datagram beyond the flushes
-	for c := 0; c < nd && !multiBroken; c++ {
+	for c := 0; c < nd; c++ {
 		if pos[c] < len(perConn[c]) {
 			out = append(out, vf("extra-datagram", "destination %d received %d datagrams, %d flushes accounted for", c, len(perConn[c]), pos[c]))
 		}
